@@ -2314,6 +2314,24 @@ def rule_text_sync(prog):
     # ordered: the byte range built from a client range (as_index_range) never ends in front of its start - the client's range may
     # (a malformed `end < start`), and `String::replace_range` panics on an inverted range, which ends the broker task
     air = cv.get("as_index_range")
+    if air is None and "get_insertion_index" in cv:
+        # written in place: the function that builds a byte range from two results of get_insertion_index
+        gi_p_ = cv["get_insertion_index"]["p"]
+        for fb_ in c.bodies:
+            if "/tests" in c.file_of(fb_["sp"]) or fb_["k"] not in ("fn", "assoc_fn"):
+                continue
+            ldefs_ = {l_["pat"]["id"]: l_["init"] for l_ in hir.nodes(fb_["body"], "Let") if l_["pat"].get("k") == "Binding" and l_.get("init") is not None}
+
+            def _from_gi(e_, d_=0):
+                if any(x_.get("k") == "Call" and hir.callee(x_) == gi_p_ for x_ in hir.nodes(e_)):
+                    return True
+                return d_ < 3 and any((hir.path_local(x_) or {}).get("id") in ldefs_ and _from_gi(ldefs_[hir.path_local(x_)["id"]], d_ + 1)
+                                      for x_ in hir.nodes(e_, "Path"))
+            for st in hir.nodes(fb_["body"], "Struct"):
+                if (st.get("adt") or "").startswith("core::ops::range::Range"):
+                    f_ = {x["name"]: x["e"] for x in st["fields"]}
+                    if "start" in f_ and "end" in f_ and _from_gi(f_["start"]) and _from_gi(f_["end"]):
+                        air = air or fb_
     if air is None:
         out.missing("position conversion function as_index_range")
     else:
